@@ -40,7 +40,7 @@ def plan(tier, seed):
 def mandatory_bins(tier):
     b = ["tagtype_%02x" % t for t in R.TAGTYPES] + ["ignored_%02x" % t for t in R.IGNORED]
     b += ["fmt_blob", "fmt_bf2compatible", "fmt_memoryimage", "page_crossing", "group_per_page", "one_group_all_pages", "debug_firmware", "release_firmware", "no_firmware_comment",
-          "multi_group_filter", "special_case_filter", "crc", "reboot", "versiondesc", "line_checksum_byte", "enforce_off_without_marker", "filter_comment_checked", "five_sections", "image_ge_64k", "source_is_a_file_name", "stream_positioned_after_other_content", "zero_length_data_line_inside_data", "instruction_separator_tab", "instruction_separator_several_blanks", "last_page_of_a_tag_type_range"]
+          "multi_group_filter", "special_case_filter", "crc", "reboot", "versiondesc", "line_checksum_byte", "enforce_off_without_marker", "filter_comment_checked", "five_sections", "image_ge_64k", "source_is_a_file_name", "stream_positioned_after_other_content", "zero_length_data_line_inside_data", "instruction_separator_tab", "instruction_separator_several_blanks", "last_page_of_a_tag_type_range", "crc_value_without_leading_zeros_or_lower_case", "firmware_name_with_blanks_or_short"]
     b += ["reject:" + c for c in REJECT_CLASSES] + ["mem_gap_before_last_line", "mem_many_extents"]
     return b
 
@@ -121,6 +121,12 @@ def gen_section(rng, ctx, base, big=False):
         lines = lines[:k] + [(lines[k][0], b"")] + lines[k:]
         ctx.bin("zero_length_data_line_inside_data")
     sec = R.Section(base, lines, gen_filter(rng, typ, ctx), proto, vd, crc, reboot, gpp, cks)
+    if crc is not None and rng.random() < 0.4:
+        # the checksum value written without leading zeros / in lower case: it is a NUMBER, the tag is its 4-byte big-endian form
+        sec.crc_format = rng.choice(("0x%X", "0x%x", "0x%08x", "0X%X"))
+        if rng.random() < 0.5:
+            sec.crc = crc = rng.choice((0x12ABCD, 0x2ABCD, 0xFF, 0x0, 0x1000000, rng.getrandbits(rng.randrange(1, 29))))
+        ctx.bin("crc_value_without_leading_zeros_or_lower_case")
     r = rng.random()
     if r < 0.3:
         sec.sep = rng.choice(("\t", "  ", " \t", "\t\t ", "   "))
@@ -138,7 +144,7 @@ def render_file(rng, ctx, header, sections):
     counter = [rng.choice((rng.randrange(0, 100), 0xFFF0, 0xFFFE, 0xFF00 + rng.randrange(256)))]  # the 16-bit line index may wrap
     if header.get("Firmware"):
         fwid, ver = header["Firmware"]
-        out.append("##Firmware: " + R.firmware_comment(fwid, "ID-engine", ver))
+        out.append("##Firmware: " + R.firmware_comment(fwid, header.get("FirmwareName", "ID-engine"), ver))
     if header.get("Creator"):
         out.append("##Creator: " + header["Creator"])
     if header.get("Bf3Update"):
@@ -302,6 +308,10 @@ def gen_header(rng, ctx, marker=True):
         ctx.bin("debug_firmware")
     else:
         ctx.bin("no_firmware_comment")
+    if "Firmware" in h and rng.random() < 0.4:
+        # the 9-column name field may hold blanks (fixed columns, not words)
+        h["FirmwareName"] = rng.choice(("READER 2", "ID ENG Z", "A B C D E", "X", "nine chrs", "  lead"))
+        ctx.bin("firmware_name_with_blanks_or_short")
     if rng.random() < 0.6:
         h["Creator"] = rng.choice(("FirmwareBuilder 1.2", "x", "make bf2"))
     if marker:
